@@ -295,17 +295,24 @@ def runPhases (c : Cfg) (done : Nat → Bool) : List KPhase → Nat → Tick →
 def killerPlan (c : Cfg) (r : Reason) (start : Tick) (done : Nat → Bool) : List (Tick × Reason) :=
   (start, r) :: runPhases c done killerPhases 0 start
 
-/-! ### The daemon killer's loop over a live dict (finding F11) -/
+/-! ### The daemon killer's sweep over the daemons -/
 
 inductive IterRes where
   | finished | raised
   deriving DecidableEq, Repr
 
-/-- CPython's dict-view iterator is created when the dict has `size0` entries; every `next()` first
-    compares the current size with `size0` and raises RuntimeError when they differ. In
-    `daemon_killer`, between two `next()` calls over `memory.running_daemons.values()` there is an
-    `await scheduler.spawn(...)`: other tasks run, and stopped daemons erase their own entries.
-    `sizes` = the dict's size at each successive `next()` (chosen by the environment). -/
+/-- `for daemon in list(memory.running_daemons.values()): await scheduler.spawn(...)` (since /repo
+    06bf1c1): the list is built before the first await. `sizes` = the dict's size at each successive
+    iteration step, chosen by the environment (between two steps other tasks run and stopped daemons
+    erase their own entries); a list iterator does not look at it. Returns the daemons visited. -/
+def iterSnapshot {α : Type} : List α → List Nat → List α → IterRes × List α
+  | [], _, acc => (.finished, acc.reverse)
+  | x :: xs, [], acc => iterSnapshot xs [] (x :: acc)
+  | x :: xs, _ :: szs, acc => iterSnapshot xs szs (x :: acc)
+
+/-- HISTORICAL (the code before 06bf1c1, finding F11): iterating the live dict view. CPython's
+    dict-view iterator is created when the dict has `size0` entries; every `next()` first compares the
+    current size with `size0` and raises RuntimeError when they differ. -/
 def iterLive (size0 : Nat) : Nat → List Nat → IterRes
   | _, [] => .finished
   | pos, sz :: rest =>
@@ -320,12 +327,13 @@ structure TCfg where
   idle : Option Tick
   interval : Option Tick
   sharp : Bool
-  guarded : Bool        -- the after-run idle loop also tests `not stopper.is_set()` (the one-line fix)
+  guarded : Bool        -- the after-run idle loop also tests `not stopper.is_set()`: true for the current tree
+                        -- (since /repo 6ccf081); false only describes the code before that repair
   deriving DecidableEq, Repr
 
-/-- `guarded` of the tree under test is read from the AST on every run; this is the variant the
-    hand-written commentary assumes (flip when the fix lands; every theorem covers both). -/
-def treeGuarded : Bool := false
+/-- The variant of the tree under test: the loop is `while memory.idle_reset_time <= started and not
+    stopper.is_set()`. Tied to the AST on every run (Tie/C09.lean: `timer_loop_guarded`). -/
+def treeGuarded : Bool := true
 
 /-- Everything another task could change; frozen while `_timer` runs without suspending. -/
 structure TEnv where
@@ -348,7 +356,15 @@ structure TLoc where
   pc : PC
   started : Tick
   done : Bool           -- state.done
+  failed : Bool         -- state.counts.failure > 0: the series has failed for good (no reset, since af4d77a)
   errDelay : Tick       -- min(state.delays) when not done
+  deriving DecidableEq, Repr
+
+/-- What one handler run reports (adversarial: any value). -/
+structure Outcome where
+  done : Bool
+  failed : Bool
+  errDelay : Tick
   deriving DecidableEq, Repr
 
 inductive TRes where
@@ -364,8 +380,7 @@ def sleepSuspends (delay : Tick) (e : TEnv) : Bool := decide (0 < delay) && !e.s
 def sleepTo (delay : Tick) (e : TEnv) (l : TLoc) : TRes :=
   if sleepSuspends delay e then .susp l else .cont l
 
-/-- `invoked (done, errDelay)`: what the handler run reports (any value: adversarial). -/
-def tstep (c : TCfg) (e : TEnv) (outcome : Bool × Tick) (l : TLoc) : TRes :=
+def tstep (c : TCfg) (e : TEnv) (outcome : Outcome) (l : TLoc) : TRes :=
   match l.pc with
   | .init =>
     match c.initialDelay with
@@ -373,7 +388,10 @@ def tstep (c : TCfg) (e : TEnv) (outcome : Bool × Tick) (l : TLoc) : TRes :=
     | none => .cont { l with pc := .head }
   | .head =>
     if e.stop then .exit false
-    else match c.idle with
+    else
+      -- `if state.done and not state.counts.failure: state = from_scratch()`: a failed series stays done
+      let l := if l.done && !l.failed then { l with done := false } else l
+      match c.idle with
       | some _ => .cont { l with pc := .idleHead }
       | none => .cont { l with pc := .invoke }
   | .idleHead =>
@@ -385,8 +403,14 @@ def tstep (c : TCfg) (e : TEnv) (outcome : Bool × Tick) (l : TLoc) : TRes :=
     | none => .cont { l with pc := .invoke }
   | .idleDone => if e.stop then .cont { l with pc := .head } else .cont { l with pc := .invoke }
   | .invoke =>
-    -- the handler call and the patch round-trip are awaited: modelled as suspending
-    .susp { l with pc := .post, started := e.now, done := outcome.1, errDelay := outcome.2 }
+    if l.done && l.failed then
+      -- a series that has failed for good: nothing is left to invoke, nothing to patch; modelled as
+      -- NOT suspending (the harder case for `progress`); the state stays done
+      .cont { l with pc := .post, started := e.now }
+    else
+      -- the handler call and the patch round-trip are awaited: modelled as suspending
+      .susp { l with pc := .post, started := e.now, done := outcome.done, failed := outcome.failed,
+                     errDelay := outcome.errDelay }
   | .post =>
     if !l.done then sleepTo l.errDelay e { l with pc := .head }
     else match c.interval with
@@ -406,7 +430,7 @@ def tstep (c : TCfg) (e : TEnv) (outcome : Bool × Tick) (l : TLoc) : TRes :=
 
 /-- Within `k` micro-steps (the environment frozen: nothing else runs meanwhile) the coroutine
     suspends or returns. -/
-def settles (c : TCfg) (e : TEnv) (outcome : Bool × Tick) : Nat → TLoc → Bool
+def settles (c : TCfg) (e : TEnv) (outcome : Outcome) : Nat → TLoc → Bool
   | 0, _ => false
   | k + 1, l =>
     match tstep c e outcome l with
@@ -414,7 +438,8 @@ def settles (c : TCfg) (e : TEnv) (outcome : Bool × Tick) : Nat → TLoc → Bo
     | .exit _ => true
     | .cont l' => settles c e outcome k l'
 
-/-- The states from which the unguarded idle-only loop is entered and never left. -/
+/-- HISTORICAL (the code before /repo 6ccf081, `guarded = false`): the states from which the
+    unguarded idle-only loop is entered and never left. Empty for the current tree. -/
 def spinning (c : TCfg) (e : TEnv) (l : TLoc) : Bool :=
   !c.guarded && c.idle.isSome && e.stop && decide (e.idleReset ≤ l.started) &&
     (l.pc == .idleLoop || (l.pc == .post && l.done && c.interval.isNone))
